@@ -8,7 +8,7 @@ From Coq Require Import String.
 From Statham.Model Require Import Str Json Elem PyNum Validate Equality Names Tables Parser SerJson.
 From Statham.Generated Require Gen_signatures Gen_unicode Gen_reserved Gen_constants Gen_parser_tables.
 From Statham.Model Require Import Spec6 Plain RunHelpers NfFrag.
-From Statham.Proofs Require Import Agree_tables ParserDefaultProof SerJsonProof NamesProof JsonEqProof C01Plain C01Parse C03Meaning C06Meaning C06RoundBase C06Round.
+From Statham.Proofs Require Import Agree_tables ParserDefaultProof SerJsonProof NamesProof JsonEqProof C01Plain C01Parse C03Meaning C06Meaning C06RoundBase C06Round C06Image.
 From Statham.Proofs Require C01Examples.
 Local Open Scope string_scope.
 Local Open Scope list_scope.
@@ -116,6 +116,36 @@ Print Assumptions C06_normal_form_checker.
 Theorem C06_real_config_round : forall u r,
   cfg_okb (mkCfg u r Gen_constants.unsupported_keywords Gen_parser_tables.comp_order_now) = true.
 Proof. intros u r. vm_compute. reflexivity. Qed.
+
+(* ---- end to end on the class-free fragment -----------------------------------------------------
+   For every schema of the class-free fragment of C01 (plain) without an empty property name (named:
+   finding C12-K4 otherwise) and tidy (no empty required list, no empty properties object: finding K24
+   otherwise; additionalItems / additionalProperties a boolean or a schema without composition
+   keywords), in every parse state: the element the parser returns lies in the normal form, so
+   parsing its serialization returns the same element and the second round trip writes the document
+   of the first.  No keyword value is lost, altered or invented by any further round trip. *)
+Theorem C06_parser_image_normal : forall cfg S0 st e st', cfg_okb cfg = true ->
+  plain cfg false S0 -> named S0 -> tidy S0 -> parse_element cfg S0 st = POk (e, st') -> nf cfg e.
+Proof. exact image_in_normal_form. Qed.
+Print Assumptions C06_parser_image_normal.
+
+Theorem C06_idempotent_classfree : forall cfg S0 st e st', cfg_okb cfg = true ->
+  plain cfg false S0 -> named S0 -> tidy S0 -> parse_element cfg S0 st = POk (e, st') ->
+  forall st2, exists e2 st3,
+    parse_element cfg (ser_top true true [] e) st2 = POk (e2, st3) /\ e2 = e /\ st3 = st2 /\
+    ser_top true true [] e2 = ser_top true true [] e.
+Proof.
+  intros cfg S0 st e st' Hc Hp Hn Ht H st2. exists e, st2.
+  split; [exact (second_trip_identity cfg S0 st e st' Hc Hp Hn Ht H st2)|auto].
+Qed.
+Print Assumptions C06_idempotent_classfree.
+
+Theorem C06_schema_checker : forall fuel S0, named_tidyb fuel S0 = true -> named S0 /\ tidy S0.
+Proof. exact named_tidyb_sound. Qed.
+
+Example C06_fragment_inhabited :
+  plainb C01Examples.ex_cfg false 50 C01Examples.ex_schema && named_tidyb 50 C01Examples.ex_schema = true.
+Proof. vm_compute. reflexivity. Qed.
 
 (* non-vacuity: the element parsed from the example schema of C01Examples.v (every keyword family,
    compositions, tuple items, dependencies of both kinds) lies in the normal form *)
